@@ -320,8 +320,10 @@ func (g *gen) region(cur *blk, sc scope, depth int, loops []*loopCtx) (*blk, sco
 			tps := g.addParams(t, g.r.Intn(3)/2)
 			jps := g.addParams(j, g.r.Intn(4))
 			same := g.samePolicy(cur, &sc, jps)
-			g.condBranch(cur, cv, e, g.argsFor(cur, &sc, eps, nil))
-			g.jump(cur, t, g.argsFor(cur, &sc, tps, nil))
+			// the two branches end the block together: all arguments are computed first
+			eargs, targs := g.argsFor(cur, &sc, eps, nil), g.argsFor(cur, &sc, tps, nil)
+			g.condBranch(cur, cv, e, eargs)
+			g.jump(cur, t, targs)
 			tb, tsc, topen := g.region(t, append(append(scope(nil), sc...), tps...), depth-1, loops)
 			if topen {
 				g.jump(tb, j, g.argsFor(tb, &tsc, jps, same))
